@@ -55,12 +55,30 @@ pub enum Op {
     /// try_recv_from
     TryRecv { buf: u8 },
     /// readable() (timeout `wait` ticks) then try_recv (no origin reported)
-    Readable { buf: u8, wait: u8 },
+    /// `reps` x readable() (each under the timeout, `gap` ticks apart) and only then, if `consume`, one
+    /// try_recv: a readiness event must survive repeated waits until it is consumed
+    Readable {
+        buf: u8,
+        wait: u8,
+        #[serde(default = "one")]
+        reps: u8,
+        #[serde(default)]
+        gap: u8,
+        #[serde(default = "yes")]
+        consume: bool,
+    },
     /// try_recv_from until WouldBlock
     Drain { buf: u8 },
     /// sleep ticks * tick + extra_ms
     Sleep { ticks: u8, extra_ms: u8 },
     DropSock,
+}
+
+fn one() -> u8 {
+    1
+}
+fn yes() -> bool {
+    true
 }
 
 #[derive(Clone, Debug, Serialize, Deserialize)]
@@ -116,6 +134,7 @@ struct Shared {
     ops_done: Rc<Cell<u32>>,
     drained: Rc<Cell<u32>>,
     drain_now: Rc<Cell<bool>>,
+    counts: Rc<RefCell<std::collections::BTreeMap<&'static str, u64>>>,
     tick_us: u64,
     v6: bool,
     nhosts: usize,
@@ -145,6 +164,9 @@ impl Shared {
     }
     fn tick(&self) -> Duration {
         Duration::from_micros(self.tick_us)
+    }
+    fn count(&self, k: &'static str) {
+        *self.counts.borrow_mut().entry(k).or_insert(0) += 1;
     }
 }
 
@@ -358,20 +380,36 @@ async fn run_actor(sh: Shared, host: usize, actor: usize, ops: Vec<Op>) {
                         let outcome = recv_outcome(&b, r.map(|(n, o)| (n, Some(o))));
                         sh.ev(host, actor, EvK::Recv { start_seq: ss, start_step: st, buf: *buf as usize, first_pending: false, outcome });
                     }
-                    Op::Readable { buf, wait } => {
+                    Op::Readable { buf, wait, reps, gap, consume } => {
                         let mut b = vec![0u8; *buf as usize];
                         let (ss, st) = (sh.log.seq(), sh.step.get());
                         let fp = Rc::new(Cell::new(false));
                         let fut = FirstPoll { f: Box::pin(s.readable()), polled: false, first_pending: fp.clone() };
-                        let r = tokio::time::timeout(sh.tick() * (*wait as u32).max(1), fut).await;
-                        let outcome = match r {
-                            Ok(_) => {
-                                let r = s.try_recv(&mut b).map(|n| (n, None));
-                                recv_outcome(&b, r)
+                        let mut ready = tokio::time::timeout(sh.tick() * (*wait as u32).max(1), fut).await.is_ok();
+                        if ready {
+                            // the readiness event is not consumed yet: further waits must not lose it
+                            for _ in 1..(*reps).max(1) {
+                                if *gap > 0 {
+                                    tokio::time::sleep(sh.tick() * *gap as u32).await;
+                                }
+                                sh.count("readable_repeated_before_consume");
+                                if tokio::time::timeout(sh.tick() * (*wait as u32).max(1), s.readable()).await.is_err() {
+                                    sh.count("repeated_readable_blocked_although_ready");
+                                    ready = true;
+                                }
                             }
-                            Err(_) => Outcome::Timeout,
-                        };
-                        sh.ev(host, actor, EvK::Recv { start_seq: ss, start_step: st, buf: *buf as usize, first_pending: fp.get(), outcome });
+                        }
+                        if !ready {
+                            sh.ev(host, actor, EvK::Recv { start_seq: ss, start_step: st, buf: *buf as usize, first_pending: fp.get(), outcome: Outcome::Timeout });
+                        } else if *consume {
+                            let r = s.try_recv(&mut b).map(|n| (n, None));
+                            let outcome = recv_outcome(&b, r);
+                            sh.ev(host, actor, EvK::Recv { start_seq: ss, start_step: st, buf: *buf as usize, first_pending: fp.get(), outcome });
+                        } else {
+                            sh.count("readiness_left_unconsumed_for_next_op");
+                            sh.log.ev(format!("s{} n{host}.a{actor} readable x{reps} (not consumed)", sh.step.get()));
+                            sh.log.tag("rdbl-keep");
+                        }
                     }
                     Op::Drain { buf } => drain(&sh, host, actor, s, *buf as usize),
                     Op::DropSock => {
@@ -626,7 +664,7 @@ fn gen_scenario(rng: &mut Rng) -> Scenario {
                     }
                     1 => ops.push(Op::Recv { buf: gen_buf(rng), wait: rng.range(1, 8) as u8 }),
                     2 => ops.push(Op::TryRecv { buf: gen_buf(rng) }),
-                    3 => ops.push(Op::Readable { buf: gen_buf(rng), wait: rng.range(1, 8) as u8 }),
+                    3 => ops.push(Op::Readable { buf: gen_buf(rng), wait: rng.range(1, 8) as u8, reps: *rng.pick(&[1u8, 1, 2, 2, 3]), gap: *rng.pick(&[0u8, 0, 1, 2]), consume: !rng.chance(1, 5) }),
                     4 => ops.push(Op::Sleep { ticks: rng.range(0, 6) as u8, extra_ms: if tick_ms > 1 && rng.chance(1, 3) { rng.below(tick_ms) as u8 } else { 0 } }),
                     5 => {
                         let gi = rng.below(ngroups as u64) as u8;
@@ -831,6 +869,7 @@ impl Property for C09 {
             ops_done: Rc::new(Cell::new(0)),
             drained: Rc::new(Cell::new(0)),
             drain_now: Rc::new(Cell::new(false)),
+            counts: Rc::new(RefCell::new(Default::default())),
             tick_us: sc.cfg.tick_us,
             v6: sc.cfg.ipv6,
             nhosts: nh,
@@ -846,7 +885,8 @@ impl Property for C09 {
                 for o in ops {
                     t += match o {
                         Op::Sleep { ticks, .. } => *ticks as u64 + 2,
-                        Op::Recv { wait, .. } | Op::Readable { wait, .. } => *wait as u64 + 2,
+                        Op::Recv { wait, .. } => *wait as u64 + 2,
+                        Op::Readable { wait, reps, gap, .. } => (*wait as u64 + *gap as u64 + 2) * (*reps as u64).max(1),
                         _ => 0,
                     };
                 }
@@ -1030,6 +1070,9 @@ impl Property for C09 {
             rep.probes.add("received_in_ambiguous_window", st.received_after_leave_or_rebind_window);
             rep.probes.add("receives_where_text_is_silent", st.may_receives);
             rep.probes.add("truncated_receives", st.truncated_receives);
+            for (k, v) in sh.counts.borrow().iter() {
+                rep.probes.add(k, *v);
+            }
             rep.probes.add("empty_queue_observations", st.empty_observations);
             rep.probes.add("datagrams_without_destination_seen_by_nobody", st.not_delivered_unbound_or_filtered);
             rep.faults.add("send_unicast_remote", sends_by_class[0]);
